@@ -203,7 +203,7 @@ func checkC14(c *Ctx) {
 				}
 			}
 		}
-		c.Check(min == 1 && max == 1 && shape && !wk.Aborted, "R2", "action-counter:"+f.Name(), p.Pos(f.Pos()), "exactly one ActionTimes+1 on the success path", fmt.Sprintf("accepted %s bumps the action counter %d..%d times on its success path (or a counter is not old+1)", a, min, max))
+		c.Check(min == 1 && max == 1 && shape && !wk.Aborted, "R2", "action-counter:"+fnName(f), p.Pos(f.Pos()), "exactly one ActionTimes+1 on the success path", fmt.Sprintf("accepted %s bumps the action counter %d..%d times on its success path (or a counter is not old+1)", a, min, max))
 	}
 	for _, a := range []string{"Ready", "Pay", "Pass"} {
 		if f := byAction[a]; f != nil {
@@ -213,7 +213,7 @@ func checkC14(c *Ctx) {
 					n++
 				}
 			}
-			c.Check(n == 0, "R2", "no-counters:"+f.Name(), p.Pos(f.Pos()), "non-wager action touches no statistics", fmt.Sprintf("%s is not a wager action but writes %d statistics field(s)", a, n))
+			c.Check(n == 0, "R2", "no-counters:"+fnName(f), p.Pos(f.Pos()), "non-wager action touches no statistics", fmt.Sprintf("%s is not a wager action but writes %d statistics field(s)", a, n))
 		}
 	}
 	only := map[string]string{"CallTimes": "Call", "CheckTimes": "Check"}
@@ -362,7 +362,7 @@ func checkC14(c *Ctx) {
 				bad = ss.Field + " = " + v.String()
 			}
 		}
-		c.Check(bad == "", "R5", "zero-constructor:"+ctor.Name(), p.Pos(ctor.Pos()), fmt.Sprintf("%d explicit fields, all zero", n), "the statistics constructor starts a hand with "+bad)
+		c.Check(bad == "", "R5", "zero-constructor:"+fnName(ctor), p.Pos(ctor.Pos()), fmt.Sprintf("%d explicit fields, all zero", n), "the statistics constructor starts a hand with "+bad)
 	}
 	if lc.continueFn != nil {
 		checkPerHandResetStats(c, lc)
@@ -411,11 +411,11 @@ func checkFt3BChanceDead(c *Ctx) (bool, string) {
 		}
 		passes, validator := trueExitsPassValidator(p, pred)
 		if !passes || validator == nil {
-			ok, why = false, "the chance predicate "+pred.Name()+" can return true without the statistics validator"
+			ok, why = false, "the chance predicate "+fnName(pred)+" can return true without the statistics validator"
 			continue
 		}
 		if !validatorRequiresStarted(p, validator) {
-			ok, why = false, "the statistics validator "+validator.Name()+" no longer requires the game-level Started event: chance flags are live"
+			ok, why = false, "the statistics validator "+fnName(validator)+" no longer requires the game-level Started event: chance flags are live"
 		}
 	}
 	if n == 0 {
